@@ -381,3 +381,12 @@ def b7_lexical(ctx):
 
 
 RULES.append(('B7', b7_lexical))
+
+
+def b8_stateless(ctx):
+    """B8 literal readers carry no state from one capture of the line to the next (shared rule, scv/common.py)"""
+    from ..common import reader_stateless
+    reader_stateless(ctx, 'B8', ('Number',))
+
+
+RULES.append(('B8', b8_stateless))
